@@ -257,9 +257,11 @@ pub mod btree {
             let it = if forward { t.iter_forward() } else { t.into_iter_backward() }.map_err(|e| e.to_string())?;
             let positions: Vec<_> = if forward { it.collect() } else { it.rev().collect() };
             let mut out = vec![];
-            let mut t2 = self.rtree();
             for p in positions {
                 let pos = p.map_err(|e| e.to_string())?;
+                // a fresh accessor per row, as the scan operators do: one accessor for the whole
+                // scan would keep every visited leaf pinned
+                let mut t2 = self.rtree();
                 let tup = t2.get_tuple_at_unchecked(pos, &self.schema).map_err(|e| e.to_string())?;
                 let row = Row::from_bytes_checked(tup.effective_data(), &self.schema).map_err(|e| e.to_string())?;
                 out.push((self.key_of(&row[0]), row[1].to_string()));
